@@ -28,6 +28,7 @@ import (
 	"github.com/basecomplextech/spec/mpx"
 
 	"verifharness/internal/mpxh"
+	"verifharness/internal/poolrec"
 )
 
 type Event struct {
@@ -460,7 +461,17 @@ func main() {
 	seed := flag.Int64("seed", 1, "seed")
 	cut := flag.Bool("cut", false, "C09: cut the connection after a byte count chosen per run")
 	cutStep := flag.Int("cutstep", 7, "C09: offsets k = first, first+step, ...")
+	pooltrace := flag.String("pooltrace", "", "C18: record the pool events of the run into this file")
 	flag.Parse()
+	if *pooltrace != "" {
+		poolrec.Start(60000)
+		defer func() {
+			if _, _, err := poolrec.Dump(*pooltrace); err != nil {
+				fmt.Fprintln(os.Stderr, "harness error:", err)
+				os.Exit(2)
+			}
+		}()
+	}
 	f, err := os.Create(*out)
 	if err != nil {
 		fmt.Fprintln(os.Stderr, "harness error:", err)
